@@ -98,6 +98,13 @@ pub fn eval(r: &Replay) -> EvalOut {
 // ------------------------------------------------------------------------------------------------
 // worker
 
+/// Deadline of the current worker (ms since the epoch); long scenarios stop between runs.
+pub static DEADLINE_MS: std::sync::atomic::AtomicU64 = std::sync::atomic::AtomicU64::new(u64::MAX);
+
+pub fn past_deadline() -> bool {
+    now_ms() > DEADLINE_MS.load(std::sync::atomic::Ordering::Relaxed)
+}
+
 static CUR_SEED: std::sync::atomic::AtomicU64 = std::sync::atomic::AtomicU64::new(0);
 static CUR_K: std::sync::atomic::AtomicU64 = std::sync::atomic::AtomicU64::new(0);
 
@@ -111,6 +118,7 @@ pub fn cmd_worker(a: &[String]) {
     let deadline: u64 = a[6].parse().unwrap();
     let maxk: u64 = a[7].parse().unwrap();
     let core: usize = a[8].parse().unwrap();
+    DEADLINE_MS.store(deadline.saturating_add(1500), std::sync::atomic::Ordering::Relaxed);
     if !cfg!(feature = "real") {
         pin_to_core(core);
     }
